@@ -105,6 +105,15 @@ class Transaction:
             if table_schema is not None:
                 self._validate_file_schema(data_file, table_schema)
 
+        # A pre-built file is unreachable until this transaction commits, and
+        # it may already be older than the GC grace period: without a marker a
+        # collection running before the commit point deleted it and the commit
+        # then published a snapshot referencing a missing file. (append_data()
+        # registered its file before writing it; re-registering is harmless.)
+        # The file itself is NOT ours to delete on rollback.
+        for data_file in files:
+            self._register_inflight(data_file.file_path.lstrip("/"))
+
         self._operations.append({"type": "append_files", "files": files})
 
         return self
